@@ -2,7 +2,8 @@
 //!
 //! Parts
 //!  * `model`      one graph driven by a generated script (deliveries of valid / forged / stale /
-//!                 conflicting messages through `NetworkGraph::update_*` and `P2PGossipSync::handle_*`,
+//!                 conflicting messages through `NetworkGraph::update_*`, `P2PGossipSync::handle_*` and the
+//!                 unsigned `NetworkGraph::update_*_unsigned*` entry points,
 //!                 permanent failures, pruning at generated times, write->read) and compared with the
 //!                 reference interpreter in model.rs after every single operation.
 //!  * `confluence` the same message universe delivered in 2-4 generated orders with duplication
@@ -32,6 +33,40 @@ use vcore::*;
 // driving the library
 // ---------------------------------------------------------------------------------------------
 
+/// Entry point a message is handed to the library through.
+#[derive(Clone, Copy, Debug, PartialEq, Eq)]
+pub enum Via {
+	/// `NetworkGraph::update_channel_from_announcement / update_channel / update_node_from_announcement`
+	Graph,
+	/// `P2PGossipSync::handle_*`
+	P2p,
+	/// `update_channel_from_unsigned_announcement / update_channel_unsigned / update_node_from_unsigned_announcement`:
+	/// the API for trusted sources. No signature is checked and nothing is kept for relay; every other rule applies.
+	Unsigned,
+}
+impl Via {
+	fn name(&self) -> &'static str {
+		match self {
+			Via::Graph => "NetworkGraph (signed)",
+			Via::P2p => "P2PGossipSync",
+			Via::Unsigned => "NetworkGraph (unsigned)",
+		}
+	}
+	fn signed(p2p: bool) -> Via {
+		if p2p {
+			Via::P2p
+		} else {
+			Via::Graph
+		}
+	}
+}
+
+/// deliveries / acceptances per [entry point][message kind], over the whole run (evidence note)
+static DELIVERIES: [[[std::sync::atomic::AtomicU64; 2]; 3]; 3] = [D_KIND; 3];
+const D_ZERO: std::sync::atomic::AtomicU64 = std::sync::atomic::AtomicU64::new(0);
+const D_PAIR: [std::sync::atomic::AtomicU64; 2] = [D_ZERO; 2];
+const D_KIND: [[std::sync::atomic::AtomicU64; 2]; 3] = [D_PAIR; 3];
+
 pub struct Lib {
 	pub g: Arc<Graph>,
 	pub lookup: Option<Arc<Lookup>>,
@@ -45,21 +80,37 @@ impl Lib {
 		Lib { g: Arc::new(Graph::new(bitcoin::Network::Testnet, log.clone())), lookup, log }
 	}
 	/// Deliver one message with signature verification requested; true = the library accepted it.
-	pub fn deliver(&self, m: &Msg, p2p: bool) -> bool {
-		if p2p {
-			let sync = P2PGossipSync::new(self.g.clone(), self.lookup.clone(), self.log.clone());
-			match m {
-				Msg::Ann(a) => sync.handle_channel_announcement(None, a).is_ok(),
-				Msg::Upd(u) => sync.handle_channel_update(None, u).is_ok(),
-				Msg::Node(n) => sync.handle_node_announcement(None, n).is_ok(),
-			}
-		} else {
-			match m {
+	pub fn deliver(&self, m: &Msg, via: Via) -> bool {
+		let ok = match via {
+			Via::P2p => {
+				let sync = P2PGossipSync::new(self.g.clone(), self.lookup.clone(), self.log.clone());
+				match m {
+					Msg::Ann(a) => sync.handle_channel_announcement(None, a).is_ok(),
+					Msg::Upd(u) => sync.handle_channel_update(None, u).is_ok(),
+					Msg::Node(n) => sync.handle_node_announcement(None, n).is_ok(),
+				}
+			},
+			Via::Graph => match m {
 				Msg::Ann(a) => self.g.update_channel_from_announcement(a, &self.lookup).is_ok(),
 				Msg::Upd(u) => self.g.update_channel(u).is_ok(),
 				Msg::Node(n) => self.g.update_node_from_announcement(n).is_ok(),
-			}
+			},
+			Via::Unsigned => match m {
+				Msg::Ann(a) => self.g.update_channel_from_unsigned_announcement(&a.contents, &self.lookup).is_ok(),
+				Msg::Upd(u) => self.g.update_channel_unsigned(&u.contents).is_ok(),
+				Msg::Node(n) => self.g.update_node_from_unsigned_announcement(&n.contents).is_ok(),
+			},
+		};
+		let kind = match m {
+			Msg::Ann(_) => 0,
+			Msg::Upd(_) => 1,
+			Msg::Node(_) => 2,
+		};
+		DELIVERIES[via as usize][kind][0].fetch_add(1, std::sync::atomic::Ordering::Relaxed);
+		if ok {
+			DELIVERIES[via as usize][kind][1].fetch_add(1, std::sync::atomic::Ordering::Relaxed);
 		}
+		ok
 	}
 	/// write -> read; checks `==` and view equality, returns the graph that was read back.
 	pub fn roundtrip(&self) -> Result<Graph, Failure> {
@@ -79,11 +130,26 @@ impl Lib {
 	}
 }
 
-fn model_deliver(model: &mut Model, w: &World, m: &Msg, p2p: bool) -> model::Verdict {
-	match m {
-		Msg::Ann(a) => model.ann(a, &|scid| w.utxo_answer(scid)),
-		Msg::Upd(u) => model.upd(u, p2p),
-		Msg::Node(n) => model.node(n),
+fn model_deliver(model: &mut Model, w: &World, m: &Msg, via: Via) -> model::Verdict {
+	match (m, via) {
+		(Msg::Ann(a), Via::Unsigned) => model.ann_inner(&a.contents, None, &|scid| w.utxo_answer(scid)),
+		(Msg::Upd(u), Via::Unsigned) => model.upd_inner(&u.contents, None),
+		(Msg::Node(n), Via::Unsigned) => model.node_inner(&n.contents, None),
+		(Msg::Ann(a), _) => model.ann(a, &|scid| w.utxo_answer(scid)),
+		(Msg::Upd(u), _) => model.upd(u, via == Via::P2p),
+		(Msg::Node(n), _) => model.node(n),
+	}
+}
+
+/// Variants whose signature(s) do not match their contents: only meaningful where signatures are
+/// checked, so they are never handed to the unsigned entry points.
+fn is_forged_variant(uni: &Uni, spec: &MsgSpec) -> bool {
+	let ann = |v: &AnnVar| matches!(v, AnnVar::BadSig { .. } | AnnVar::Altered { .. });
+	match spec {
+		MsgSpec::Ann { chan } => ann(&uni.chans[pick(*chan, uni.chans.len())].var),
+		MsgSpec::AnnVariant { var, .. } => ann(var),
+		MsgSpec::Upd { var, .. } => matches!(var, UpdVar::SignedBy { .. } | UpdVar::Altered { .. }),
+		MsgSpec::Node { var, .. } => matches!(var, NodeVar::SignedBy { .. } | NodeVar::Altered { .. }),
 	}
 }
 
@@ -111,14 +177,14 @@ fn is_not_current(reason: &str) -> bool {
 }
 
 /// One delivery against library and reference; compares the accept/reject verdict.
-fn step_deliver(lib: &Lib, model: &mut Model, w: &World, m: &Msg, p2p: bool, at: &str, seen: &mut BTreeSet<String>) -> Result<bool, Failure> {
+fn step_deliver(lib: &Lib, model: &mut Model, w: &World, m: &Msg, via: Via, at: &str, seen: &mut BTreeSet<String>) -> Result<bool, Failure> {
 	// `verify_channel_update` is documented to tell whether `update_channel` would currently apply the message
 	let dry_run = match m {
-		Msg::Upd(u) if !p2p => Some(lib.g.verify_channel_update(u).is_ok()),
+		Msg::Upd(u) if via == Via::Graph => Some(lib.g.verify_channel_update(u).is_ok()),
 		_ => None,
 	};
-	let lib_ok = lib.deliver(m, p2p);
-	let verdict = model_deliver(model, w, m, p2p);
+	let lib_ok = lib.deliver(m, via);
+	let verdict = model_deliver(model, w, m, via);
 	let reason = verdict.err().unwrap_or("accepted");
 	seen.insert(match (verdict.is_ok(), m) {
 		(true, Msg::Ann(_)) => "acc:ann".to_string(),
@@ -126,9 +192,12 @@ fn step_deliver(lib: &Lib, model: &mut Model, w: &World, m: &Msg, p2p: bool, at:
 		(true, Msg::Node(_)) => "acc:node".to_string(),
 		(false, _) => format!("rej:{}", reason),
 	});
+	if via == Via::Unsigned {
+		seen.insert(if verdict.is_ok() { "unsigned:accepted".to_string() } else { format!("unsigned:rej:{}", reason) });
+	}
 	if lib_ok != verdict.is_ok() {
 		let what = if lib_ok { "library ACCEPTED a message the reference rejects" } else { "library REJECTED a message the reference accepts" };
-		return Err(Failure::new("accept", format!("{}: {} ({}; via {}); reference verdict: {}", at, what, describe(m), if p2p { "P2PGossipSync" } else { "NetworkGraph" }, reason))
+		return Err(Failure::new("accept", format!("{}: {} ({}; via {}); reference verdict: {}", at, what, describe(m), via.name(), reason))
 			.with_key(format!("accept/{}/{}", reason, if lib_ok { "lib-accepted" } else { "lib-rejected" })));
 	}
 	if let Some(v) = dry_run {
@@ -216,7 +285,13 @@ fn check_currency(before: &View, after: &View, at: &str) -> CaseResult {
 
 #[derive(Clone, Debug, Serialize, Deserialize)]
 pub enum Op {
-	Deliver { msg: u16, p2p: bool },
+	/// `unsigned`: through the unsigned (trusted source) entry point, unless the message is a forged variant
+	Deliver {
+		msg: u16,
+		p2p: bool,
+		#[serde(default)]
+		unsigned: bool,
+	},
 	FailChan { chan: u16, via_update: bool, permanent: bool },
 	FailNode { node: u16, via_update: bool, permanent: bool },
 	/// remove_stale_channels_and_tracking_with_time(base + offset(band, frac))
@@ -242,7 +317,7 @@ pub fn prune_offset(band: u8, frac: u16) -> i64 {
 fn op_strat(with_rgs: bool) -> impl Strategy<Value = Op> + Clone + Send + Sync {
 	let rgs_w = if with_rgs { 3 } else { 0 };
 	prop_oneof![
-		180 => (any::<u16>(), any::<bool>()).prop_map(|(msg, p2p)| Op::Deliver { msg, p2p }),
+		180 => (any::<u16>(), any::<bool>(), prop::bool::weighted(0.25)).prop_map(|(msg, p2p, unsigned)| Op::Deliver { msg, p2p, unsigned }),
 		5 => (any::<u16>(), any::<bool>(), prop::bool::weighted(0.8)).prop_map(|(chan, via_update, permanent)| Op::FailChan { chan, via_update, permanent }),
 		2 => (any::<u16>(), any::<bool>(), prop::bool::weighted(0.8)).prop_map(|(node, via_update, permanent)| Op::FailNode { node, via_update, permanent }),
 		5 => (prop_oneof![6 => Just(0u8), 10 => Just(1u8), 1 => Just(2u8), 1 => Just(3u8)], any::<u16>()).prop_map(|(band, frac)| Op::Prune { band, frac }),
@@ -277,16 +352,18 @@ fn model_oracle(c: &MCase, ctx: &mut Ctx) -> CaseResult {
 	for i in 0..pick(c.warm, nch + 1) {
 		let m = w.msg(&msgs, i, None);
 		let at = format!("warm-up #{}", i);
-		step_deliver(&lib, &mut model, &w, &m, false, &at, &mut seen)?;
+		step_deliver(&lib, &mut model, &w, &m, Via::Graph, &at, &mut seen)?;
 		prev = compare_views(&lib, &model, &at, "the delivery")?;
 		steps += 1;
 	}
 	for (i, op) in c.ops.iter().enumerate() {
 		let at = format!("op #{} {:?}", i, if let Op::Rgs(_) = op { "Rgs(..)".to_string() } else { format!("{:?}", op) });
 		match op {
-			Op::Deliver { msg, p2p } => {
-				let m = w.msg(&msgs, pick(*msg, msgs.len()), None);
-				if step_deliver(&lib, &mut model, &w, &m, *p2p, &at, &mut seen)? && matches!(m, Msg::Upd(_)) {
+			Op::Deliver { msg, p2p, unsigned } => {
+				let idx = pick(*msg, msgs.len());
+				let m = w.msg(&msgs, idx, None);
+				let via = if *unsigned && !is_forged_variant(&c.uni, &msgs[idx]) { Via::Unsigned } else { Via::signed(*p2p) };
+				if step_deliver(&lib, &mut model, &w, &m, via, &at, &mut seen)? && matches!(m, Msg::Upd(_)) {
 					applied_updates += 1;
 				}
 			},
@@ -373,6 +450,11 @@ struct CCase {
 	orders: Vec<Vec<(u16, u16, bool)>>,
 	/// per delivery position: through P2PGossipSync (bit set) or NetworkGraph
 	route_bits: u64,
+	/// per message content (index, or channel for announcements; mod 64): every copy in every order goes through the unsigned entry point
+	/// (forged variants excepted). Fixed per message because a signed delivery keeps the message for
+	/// relay and an unsigned one cannot, which is visible in the graph.
+	#[serde(default)]
+	unsigned_bits: u64,
 }
 
 fn ccase_strat() -> impl Strategy<Value = CCase> + Clone + Send + Sync + 'static {
@@ -380,8 +462,9 @@ fn ccase_strat() -> impl Strategy<Value = CCase> + Clone + Send + Sync + 'static
 		uni_strat(12, 60, false),
 		prop::collection::vec(prop::collection::vec((any::<u16>(), any::<u16>(), prop::bool::weighted(0.35)), 72), 2..=4),
 		any::<u64>(),
+		(any::<u64>(), any::<u64>()).prop_map(|(a, b)| a & b),
 	)
-		.prop_map(|(uni, orders, route_bits)| CCase { uni, orders, route_bits })
+		.prop_map(|(uni, orders, route_bits, unsigned_bits)| CCase { uni, orders, route_bits, unsigned_bits })
 }
 
 #[derive(Clone, Copy, PartialEq, Eq, PartialOrd, Ord, Debug)]
@@ -503,7 +586,14 @@ fn confluence_oracle(c: &CCase, ctx: &mut Ctx) -> CaseResult {
 					p2p = *i % 2 == 0;
 				}
 			}
-			let r = step_deliver(&lib, &mut model, &w, &m, p2p, &format!("order {} position {} (message #{})", k, pos, i), &mut seen);
+			// The choice is tied to the message *content*: all acceptable announcements of one channel are
+			// the same message (whatever their index), updates / node announcements are distinct per index.
+			let content_id = match chan_of[*i] {
+				Some(ch) if matches!(m, Msg::Ann(_)) => 40 + ch,
+				_ => *i,
+			};
+			let via = if (c.unsigned_bits >> (content_id % 64)) & 1 == 1 && !is_forged_variant(&c.uni, &msgs[*i]) { Via::Unsigned } else { Via::signed(p2p) };
+			let r = step_deliver(&lib, &mut model, &w, &m, via, &format!("order {} position {} (message #{})", k, pos, i), &mut seen);
 			if !confluence_only {
 				r?;
 			}
@@ -625,13 +715,13 @@ fn tamper_oracle(c: &TCase, ctx: &mut Ctx) -> CaseResult {
 		_ => Msg::Node(w.build_node(owner, ts(9), &c.body, &NodeVar::Valid, 1)),
 	};
 	if kind != 0 {
-		vensure!(lib.deliver(&ann, false), "tamper-setup", "valid channel_announcement was rejected");
+		vensure!(lib.deliver(&ann, Via::Graph), "tamper-setup", "valid channel_announcement was rejected");
 		if c.prior {
 			let older = match kind {
 				1 => Msg::Upd(w.build_upd(0, c.dir, ts(2), &c.pol, &UpdVar::Valid, 2)),
 				_ => Msg::Node(w.build_node(owner, ts(2), &c.body, &NodeVar::Valid, 2)),
 			};
-			vensure!(lib.deliver(&older, false), "tamper-setup", "valid older message was rejected");
+			vensure!(lib.deliver(&older, Via::Graph), "tamper-setup", "valid older message was rejected");
 		}
 	}
 	let before = lib_view(&lib.g);
@@ -654,8 +744,8 @@ fn tamper_oracle(c: &TCase, ctx: &mut Ctx) -> CaseResult {
 		} else {
 			in_body += 1;
 		}
-		let p2p = k % 2 == 1;
-		let accepted = lib.deliver(&m, p2p);
+		let via = Via::signed(k % 2 == 1);
+		let accepted = lib.deliver(&m, via);
 		let after = lib_view(&lib.g);
 		if accepted || after != before {
 			return Err(Failure::new(
@@ -667,7 +757,7 @@ fn tamper_oracle(c: &TCase, ctx: &mut Ctx) -> CaseResult {
 					bit / 8,
 					if bit / 8 < sig_len { "signature" } else { "signed" },
 					if accepted { "ACCEPTED" } else { "rejected" },
-					if p2p { "P2PGossipSync" } else { "NetworkGraph" },
+					via.name(),
 					if after != before { format!("changed (lib = after, reference = before the delivery): {}", view_diff(&after, &before)) } else { "unchanged".into() }
 				),
 			)
@@ -675,7 +765,7 @@ fn tamper_oracle(c: &TCase, ctx: &mut Ctx) -> CaseResult {
 		}
 	}
 	// the untampered message is what the graph then takes
-	vensure!(lib.deliver(&target, false), "tamper-setup", "the untampered message was rejected: {}", describe(&target));
+	vensure!(lib.deliver(&target, Via::Graph), "tamper-setup", "the untampered message was rejected: {}", describe(&target));
 	let after = lib_view(&lib.g);
 	let landed = match &target {
 		Msg::Ann(a) => after.chans.contains_key(&a.contents.short_channel_id),
@@ -698,6 +788,7 @@ fn main() {
 	base();
 	c.assume("the harness is built with lightning's `_test_utils` feature, which disables the wall-clock staleness/future checks on channel_update timestamps; generated timestamps nevertheless stay inside the window a production build accepts (now-13d .. now+9h)");
 	c.assume("times compared with the library's own clock readings (announcement receive time, removal tombstones) keep >= 2 h distance from the 1-week / 2-week edges; a case is assumed to finish within 2 h of process start");
+	c.assume("the unsigned entry points (update_channel_from_unsigned_announcement, update_channel_unsigned, update_node_from_unsigned_announcement) are expected to apply every rule of the signed ones except the signature check and keeping the message for relay, as their documentation states; forged variants are never delivered through them");
 	c.assume("UTXO lookups answer synchronously; asynchronous lookups (UtxoFuture) and gossip queries/back-pressure are not exercised");
 	c.assume("signature validity in the reference is decided by an independent secp256k1 verification over sha256d of the re-serialized signed part against the keys named in the message / stored for the channel");
 	c.assume("the relay limit for unknown trailing data (1024 bytes: larger messages are applied but not stored) and the 'same scid, other endpoints is re-validated against the chain' rule are taken from the library's documented behaviour, not from BOLT 7");
@@ -707,7 +798,7 @@ fn main() {
 	c.part(
 		PartSpec {
 			name: "model",
-			rule: "universe of 3-15 nodes, 2-14 channels with generated UTXO answers, 4-70 further messages (valid, wrong signer, altered after signing, wrong chain, unknown scid, htlc_max above capacity, equal/older timestamps, second announcement with other endpoints); script of 10-200 operations (deliveries via NetworkGraph / P2PGossipSync, permanent channel/node failures direct and via NetworkUpdate, pruning at generated times, write->read, RGS snapshots in the thorough tier); library compared with the reference interpreter after every operation. Non-trivial: at least one forged message, one not-newer message and one accepted channel_update in the case",
+			rule: "universe of 3-15 nodes, 2-14 channels with generated UTXO answers, 4-70 further messages (valid, wrong signer, altered after signing, wrong chain, unknown scid, htlc_max above capacity, equal/older timestamps, second announcement with other endpoints); script of 10-200 operations (deliveries via the signed NetworkGraph::update_* / P2PGossipSync::handle_* entry points and, for a quarter of the not-forged messages, the unsigned NetworkGraph entry points where the same rules minus the signature check are expected; permanent channel/node failures direct and via NetworkUpdate, pruning at generated times, write->read, RGS snapshots in the thorough tier); library compared with the reference interpreter after every operation. Non-trivial: at least one forged message, one not-newer message and one accepted channel_update in the case",
 			quick_cases: 14_000,
 			thorough_cases: 600_000,
 			max_shrink: 1500,
@@ -718,7 +809,7 @@ fn main() {
 	c.part(
 		PartSpec {
 			name: "confluence",
-			rule: "universe as above without conflicting announcements, all timestamps pairwise distinct; 2-4 delivery orders with duplication, each announcement before its dependants; final graphs must be equal to each other, equal to the reference and survive write->read. Non-trivial: orders 0 and 1 swap two messages of the same channel and a forgery and an older message were turned down",
+			rule: "universe as above without conflicting announcements, all timestamps pairwise distinct; 2-4 delivery orders with duplication, each announcement before its dependants, a quarter of the not-forged messages through the unsigned entry points (fixed per message); final graphs must be equal to each other, equal to the reference and survive write->read. Non-trivial: orders 0 and 1 swap two messages of the same channel and a forgery and an older message were turned down",
 			quick_cases: 8_000,
 			thorough_cases: 300_000,
 			max_shrink: 1500,
@@ -737,5 +828,24 @@ fn main() {
 		tcase_strat(),
 		tamper_oracle,
 	);
+	// deliveries (and acceptances) per entry point and message kind over all parts of this run
+	let mut note = serde_json::Map::new();
+	let mut line = String::from("  deliveries delivered/accepted:");
+	for (r, rn) in ["graph_signed", "p2p", "graph_unsigned"].iter().enumerate() {
+		let mut per = serde_json::Map::new();
+		let (mut d, mut a) = (0, 0);
+		for (k, kn) in ["channel_announcement", "channel_update", "node_announcement"].iter().enumerate() {
+			let (dk, ak) = (DELIVERIES[r][k][0].load(std::sync::atomic::Ordering::Relaxed), DELIVERIES[r][k][1].load(std::sync::atomic::Ordering::Relaxed));
+			per.insert(kn.to_string(), serde_json::json!({ "delivered": dk, "accepted": ak }));
+			d += dk;
+			a += ak;
+		}
+		line += &format!(" {}={}/{}", rn, d, a);
+		note.insert(rn.to_string(), serde_json::Value::Object(per));
+	}
+	c.note("deliveries_per_entry_point", serde_json::Value::Object(note));
+	if c.args.replay.is_none() {
+		report(&line);
+	}
 	c.finish();
 }
